@@ -28,13 +28,13 @@ enum {
 	K_ASYNC, K_BASYNC, K_SYNC, K_BSYNC, K_AAW, K_BAAW, K_GASYNC, K_APPLY, K_AWAIT, K_WORK, K_GATE, K_OPEN,
 	K_SUSPEND, K_RESUME, K_ACTIVATE, K_GENTER, K_GLEAVE, K_GWAIT, K_GNOTIFY, K_SWAIT, K_SSIGNAL, K_ONCE,
 	K_SPECIFIC, K_QSPECIFIC, K_ASSERTQ, K_ASSERTNOTQ, K_XASSERTQ, K_XASSERTNOTQ, K_RETAIN, K_RELEASE, K_SETTARGET,
-	K_BCREATE, K_BSUBMIT, K_BCANCEL, K_BWAIT, K_BNOTIFY, K_BTEST, K_YIELD, K_SLEEP, K_AFTER, K_NKINDS
+	K_BCREATE, K_BSUBMIT, K_BCANCEL, K_BWAIT, K_BNOTIFY, K_BTEST, K_YIELD, K_SLEEP, K_AFTER, K_ONCESTORM, K_NKINDS
 };
 static const char *kind_names[K_NKINDS] = {
 	"async", "basync", "sync", "bsync", "aaw", "baaw", "gasync", "apply", "await", "work", "gate", "open",
 	"suspend", "resume", "activate", "genter", "gleave", "gwait", "gnotify", "swait", "ssignal", "once",
 	"specific", "qspecific", "assertq", "assertnotq", "xassertq", "xassertnotq", "retain", "release", "settarget",
-	"bcreate", "bsubmit", "bcancel", "bwait", "bnotify", "btest", "yield", "sleep", "after"
+	"bcreate", "bsubmit", "bcancel", "bwait", "bnotify", "btest", "yield", "sleep", "after", "oncestorm"
 };
 
 struct ctx;
@@ -122,6 +122,26 @@ static void once_f(void *c) {
 	if (op->body) run_ctx(op->body);
 	once_val[op->a] = pat((uint64_t)op->a, 99);
 	logev(EV_END, op->id, -1, 0);
+}
+// many callers racing on one predicate while the initialiser is parked on a (soft) gate
+static void storm_init_f(void *c) {
+	op_t *op = c;
+	logev(EV_START, op->id, -1, 0);
+	atomic_fetch_add(&gate_waiters[op->b], 1);
+	flag_wait(&gate_open[op->b]);
+	atomic_fetch_sub(&gate_waiters[op->b], 1);
+	once_val[op->a] = pat((uint64_t)op->a, 99);
+	logev(EV_END, op->id, -1, 0);
+}
+static _Atomic int storm_idx;
+static void *storm_thread(void *c) {
+	op_t *op = c;
+	int i = atomic_fetch_add(&storm_idx, 1);
+	logev(EV_CALL, op->id, i, op->kind);
+	dispatch_once_f(&ONCE[op->a], op, storm_init_f);
+	logev(EV_RET, op->id, i, 0);
+	if (once_val[op->a] != pat((uint64_t)op->a, 99)) logev(EV_CHKFAIL, op->id, 3, i);
+	return NULL;
 }
 static void finalizer_f(void *c) {
 	long q = (long)c - 1;
@@ -272,6 +292,14 @@ static void exec_op(op_t *op) {
 		logev(EV_RET, op->id, -1, 0);
 		if (once_val[op->a] != pat((uint64_t)op->a, 99)) logev(EV_CHKFAIL, op->id, 3, (int64_t)once_val[op->a]);
 		break;
+	case K_ONCESTORM: {
+		int n = (int)op->c; pthread_t *th = calloc((size_t)n, sizeof *th);
+		pthread_attr_t at; pthread_attr_init(&at); pthread_attr_setstacksize(&at, 256 * 1024);
+		atomic_store(&storm_idx, 0);
+		for (int i = 0; i < n; i++) pthread_create(&th[i], &at, storm_thread, op);
+		for (int i = 0; i < n; i++) pthread_join(th[i], 0);
+		free(th);
+		break; }
 	case K_SPECIFIC: logev(EV_VAL, op->id, (int32_t)op->a, (int64_t)(long)dispatch_get_specific(&KEYS[op->a])); break;
 	case K_QSPECIFIC: logev(EV_VAL, op->id, (int32_t)op->b, (int64_t)(long)dispatch_queue_get_specific(Q[op->a], &KEYS[op->b])); break;
 	case K_ASSERTQ: logev(EV_CALL, op->id, -1, op->kind); dispatch_assert_queue(Q[op->a]); logev(EV_RET, op->id, -1, 0); break;
@@ -503,7 +531,7 @@ static void *coordinator(void *arg) {
 	// semaphores: count the permits that are still obtainable, then restore the initial value (required before release)
 	for (int s = 0; s < MAXSEM; s++) if (SEM[s]) {
 		long got = 0;
-		while (dispatch_semaphore_wait(SEM[s], DISPATCH_TIME_NOW) == 0) got++;
+		while (dispatch_semaphore_wait(SEM[s], dispatch_time(DISPATCH_TIME_NOW, 300000)) == 0) got++;   // short blocking waits: a stray kernel wake-up counts as a permit too
 		logev(EV_VAL, -1, 1000 + s, got);
 		for (long i = 0; i < sem_init[s]; i++) dispatch_semaphore_signal(SEM[s]);
 		dispatch_release(SEM[s]);
